@@ -4,7 +4,7 @@ Monitor: return/raise of every operation of random chained programs over core
 and IOAPI files; oracle wellformed() on the REAL post-state of each step."""
 import numpy as np
 
-from .. import gen_core, gen_ioapi, ops, snapshot
+from .. import gen_core, gen_ioapi, ops, readerfiles, snapshot
 from ..cli import digest
 
 PROP = 'C01'
@@ -22,7 +22,11 @@ RULE = ('random programs of 1-6 chained public operations (copy, slice, apply,'
         ' oracle runs on the real result of every step and on every '
         'constructor; one further case runs the repository\'s own test '
         'suite with the same oracle on every outermost public operation '
-        '(bundled sample files, the maintainers\' call patterns). '
+        '(bundled sample files, the maintainers\' call patterns); every '
+        'eighth receiver is the object one of the library\'s READERS returns '
+        'for a valid image written by the independent codecs (all CAMx '
+        'memory-mapped and record readers, bpch1, bpch2, arlpackedbit, '
+        'ffi1001): the reader\'s file is judged, then a program runs on it. '
         'evaluations = operation returns/raises monitored; a step '
         'is non-trivial when the operation returned a file with >= 1 variable;'
         ' distinct = digest of (operation description, input file digest).')
@@ -38,7 +42,8 @@ HOOKS = ['op.return', 'wellformed.eval', 'constructor.eval',
 MIN_DISTINCT = {'quick': 800, 'thorough': 10000}
 N = {'quick': 1500, 'thorough': 40000}
 FACETS_REQUIRED = {t: ['op:' + k for k in list(ops.CORE_OPS) +
-                       list(ops.FN_OPS)] + ['file:ioapi', 'file:core']
+                       list(ops.FN_OPS)] + ['file:ioapi', 'file:core',
+                                             'file:reader']
                    for t in ('quick', 'thorough')}
 
 
@@ -49,7 +54,11 @@ def ncases(tier):
 def gen(rng, idx, tier, seed):
     if idx >= N[tier]:
         return {'suite': True}
-    if idx % 4 == 3:
+    if idx % 8 == 5:
+        # the receiver is what one of the library's readers returns for a
+        # valid image written by the independent codecs
+        fs = {'reader': readerfiles.gen_spec(rng, idx=idx // 8)}
+    elif idx % 4 == 3:
         fs = {'ioapi': gen_ioapi.gen_spec(rng)}
     else:
         fs = {'core': gen_core.gen_filespec(rng, bounds_prob=0.3)}
@@ -121,10 +130,21 @@ def run(spec, res):
 def run_in(spec, res, d, h):
     import os
     ops.OPTIONS['zipped'] = True
-    f = build(spec['file'])
     ioapi = 'ioapi' in spec['file']
-    res.facet('file:ioapi' if ioapi else 'file:core')
-    if spec.get('disk'):
+    rdr = spec['file'].get('reader')
+    if rdr:
+        f, status = readerfiles.open_reader(rdr, d)
+        res.facet('reader:%s:%s' % (rdr['kind'], status.split(':')[0]))
+        if f is None:
+            # whether a reader may reject this image is C09/C13/C14's
+            res.note('reader-gave-no-file:' + status)
+            res.ev(digest(['ctor', spec['file']]), False, 'no-receiver')
+            return
+        res.facet('file:reader')
+    else:
+        f = build(spec['file'])
+        res.facet('file:ioapi' if ioapi else 'file:core')
+    if spec.get('disk') and not rdr:
         import PseudoNetCDF as pnc
         try:
             path = os.path.join(d, 'src.nc')
@@ -144,7 +164,13 @@ def run_in(spec, res, d, h):
     res.ev(digest(['ctor', spec['file']]), len(list(f.variables.keys())) > 0,
            'ctor')
     if bad:
-        res.viol('constructor-malformed', '; '.join(bad[:5]))
+        if rdr:
+            res.viol('reader-malformed:' + rdr['kind'],
+                     'the file %s returns for a valid image is malformed: %s'
+                     % (rdr['kind'], '; '.join(bad[:5])),
+                     reader=rdr['kind'], problems=bad[:8])
+        else:
+            res.viol('constructor-malformed', '; '.join(bad[:5]))
         return
     trace = []
 
@@ -174,7 +200,8 @@ def run_in(spec, res, d, h):
                          '%s raised %r after %s\n%s' % (st.desc, st.exc,
                                                        trace[:-1], tb),
                          op=st.op, exc=type(st.exc).__name__, meta=st.meta,
-                         excmsg=str(st.exc)[:300])
+                         excmsg=str(st.exc)[:300],
+                         reader=rdr['kind'] if rdr else None)
             return
         out = st.result
         res.hook('wellformed.eval')
@@ -199,7 +226,8 @@ def run_in(spec, res, d, h):
             st.meta['stop'] = True
             res.viol('malformed-result:' + st.op, '%s -> %s (program %s)'
                      % (st.desc, '; '.join(bad[:5]), trace), op=st.op,
-                     meta=st.meta, problems=bad[:8])
+                     meta=st.meta, problems=bad[:8],
+                     reader=rdr['kind'] if rdr else None)
 
     allowed = None
     if spec.get('fn'):
